@@ -214,7 +214,9 @@ func (e *EnvReader) Read(p []byte) (int, error) {
 		e.Hook()
 	}
 	e.Calls++
-	if e.Need > 0 && e.pos >= e.Need && len(p) > 0 {
+	if e.Need > 0 && e.pos >= e.Need && e.pos == len(e.D) && len(p) > 0 {
+		// everything the consumer needs has been delivered and the source has nothing more right now: on a live
+		// connection this Read blocks until the peer sends something else
 		e.LateCalls++
 	}
 	if e.ErrReturned {
